@@ -177,6 +177,12 @@ fn run(n: usize, base: &[u8], arm: &dyn Fn(&mut MediumStats)) -> Outcome {
         let before = failed(&m2);
         let r = if ending == "flush" {
             let r = pkg.flush();
+            if r.is_err() {
+                // the caller tries again (with the fault still there, or gone): whatever the
+                // outcome, no panic
+                let _ = pkg.flush();
+                let _ = pkg.flush();
+            }
             // a crash right after flush: no destructor runs
             std::mem::forget(pkg);
             r
